@@ -444,6 +444,7 @@ CHECKS["C10"] = {
         {"name": "tls-stall", "run": "^TestC10TLSStall$", "kind": "plain"},
         {"name": "retry-pause", "run": "^TestC10RetryPause$", "kind": "plain"},
         {"name": "helper-late-write", "run": "^TestC10HelperLateWrite$", "kind": "plain"},
+        {"name": "waiter-fresh-conn", "run": "^TestC10WaiterFreshConn$", "kind": "plain"},
         {"name": "regress", "run": "^TestC10Regress$", "kind": "plain"},
         {"name": "histories", "run": "^TestC10Histories$", "kind": "rapid", "checks": {"quick": 1280, "thorough": 16000}, "shards": {"quick": 16, "thorough": 16}, "shrinktime": "30s"},
         {"name": "histories-race", "run": "^TestC10Histories$", "kind": "rapid", "race": True, "tiers": ["thorough"], "checks": {"thorough": 1600}, "shards": {"thorough": 8}, "shrinktime": "30s"},
